@@ -279,9 +279,18 @@ pub fn gen_clock_event(rng: &mut Rng, sw: &Swarm, now: &Reading) -> Vec<Ev> {
                 kind: 10 + class,
             }]
         }
-        3 => vec![Ev::Offset {
-            secs: *rng.pick(&OFFSETS),
-        }],
+        3 => {
+            if rng.chance(1, 3) {
+                vec![Ev::OffsetAfter {
+                    reads: 1 + rng.below(2) as u32,
+                    secs: *rng.pick(&OFFSETS),
+                }]
+            } else {
+                vec![Ev::Offset {
+                    secs: *rng.pick(&OFFSETS),
+                }]
+            }
+        }
         4 => {
             // a UTC day end, 23:59:59, then leap representation on the next reads
             let day = (now.secs.div_euclid(SECS_PER_DAY)).clamp(-719_000, 2_932_000);
@@ -787,6 +796,12 @@ pub fn gen_op(rng: &mut Rng, sw: &Swarm, now: &Reading, st: &mut GenState) -> Op
     if !st.slotted.is_empty() && rng.chance(1, 4) {
         let mut op = rng.pick(&st.slotted).clone();
         op.ticks = ticks(rng, sw);
+        // sometimes the same Formatter object serves another target type
+        if rng.chance(1, 4) {
+            if let OpKind::Parse { ty, .. } = &mut op.kind {
+                *ty = *rng.pick(&[Ty::Date, Ty::Timestamp, Ty::Oracle, Ty::Time]);
+            }
+        }
         return op;
     }
     let kind = match rng.below(100) {
